@@ -147,7 +147,7 @@ class DriverCrash(Exception):
     pass
 
 
-JOB_TIMEOUT_S = 6  # per job, enforced inside the driver (each job runs in a forked child)
+JOB_TIMEOUT_S = 10  # CPU seconds per job, enforced inside the driver (jobs run in a forked child)
 
 
 def run_jobs(binary: str, jobs: list, scratch: str, tag: str = "jobs", timeout: int | None = None) -> list:
@@ -163,7 +163,7 @@ def run_jobs(binary: str, jobs: list, scratch: str, tag: str = "jobs", timeout: 
     env = dict(os.environ)
     env["TETRISCHED_LOGGING_DIR"] = scratch  # the library appends a timing csv there
     if timeout is None:
-        timeout = 120 + JOB_TIMEOUT_S * 8 + len(jobs)  # only hit if the driver itself is stuck
+        timeout = 600 + JOB_TIMEOUT_S * 40 + len(jobs)  # only hit if the driver itself is stuck
     p = subprocess.run([binary, jin, jout, str(JOB_TIMEOUT_S)], cwd=scratch, capture_output=True, text=True, timeout=timeout, env=env)
     if p.returncode != 0:
         raise DriverCrash(f"driver rc={p.returncode} on batch {tag}: {(p.stdout + p.stderr)[-2000:]}")
